@@ -647,11 +647,35 @@ def bounded(tier, seed):
             norm = lambda xs: [bytes(x) if isinstance(x, (bytes, bytearray)) else x for x in xs]
             if norm(got) != norm(want) and len(violations) < 8:
                 violations.append(dict(key='tnet_from%s split at %r' % (label, k), observed=repr(got)[:300], required=repr(want)[:300]))
+    # a slow sender: the receive timeout expires in the middle of a message, and the next block begins with a newline that is payload
+    slow_items = [b'x\ny', b'ab', b'\n\nz']
+    slow = b''.join(tnetstrings.dump(m) + b'\n' for m in slow_items)
+    for k in [i for i in range(1, len(slow)) if slow[i] == 10]:
+        ev += 1
+        distinct.add(('from-slow', k))
+        got = tnet_from_stream([slow[:k], slow[k:]], gap=0.25, timeout=0.06, drop_none=True)
+        norm = lambda xs: [bytes(x) if isinstance(x, (bytes, bytearray)) else x for x in xs]
+        if norm(got) != norm(slow_items) and len(violations) < 8:
+            violations.append(dict(key='tnet_from slow sender, split at %r (receive timeouts in between)' % (k,), observed=repr(got)[:300], required=repr(slow_items)))
+    # text below containers with an encoding other than the default
+    for enc in ('latin-1', 'utf-16-le', 'cp1252'):
+        for v in ({'k': u'\xe9t\xe9'}, [u'\xe9', {'a': {'b': u'na\xefve'}}], {'x': [u'\xfc', 1, None]}, u'\xe9'):
+            ev += 1
+            distinct.add(('enc', enc, repr(v)))
+            try:
+                wire_ = tnetstrings.dump(v, encoding=enc)
+                got, rem = tnetstrings.parse(wire_ + b'7:', encoding=enc)
+                ok = same(got, v) and rem == b'7:'
+                obs = repr((wire_, got, rem))
+            except Exception as e:
+                ok, obs = False, 'raised %s: %s' % (type(e).__name__, e)
+            if not ok and len(violations) < 8:
+                violations.append(dict(key='roundtrip %r with encoding %s' % (v, enc), observed=obs[:300], required='parse(dump(v, encoding=E) + rest, encoding=E) == (v, rest)'))
     return dict(evaluations=ev, distinct_nontrivial=len(distinct), distinct_keys=distinct_keys(distinct),
                 rule='(a) seeded values (ints incl. > 64 bit, bools, None, bytes that look like prefixes/colons/type tags, multi-byte text, floats, nested lists and '
                      'string-keyed dicts to depth 3) x following data: parse(dump(v) + rest) == (v, rest) with equal types; (b) the real tnet_machine fed like '
                      'tnet_from for the types it supports, every two-way split and byte-at-a-time, followed by further data: same payload, terminal, '
-                     'source.sent == len(dump(v)); (c) the real tnet_from loop on a socket pair: messages separated by one, two or three newlines (payloads containing newlines at every position) in one chunk and two-way splits: the same payloads; distinct = distinct values / (value, chunking)',
+                     'source.sent == len(dump(v)); (c) the real tnet_from loop on a socket pair: messages separated by one, two or three newlines (payloads containing newlines at every position) in one chunk and two-way splits: the same payloads; a slow sender (receive timeouts inside a message, next block starting with a payload newline); text below containers with latin-1 / utf-16-le / cp1252; distinct = distinct values / (value, chunking)',
                 exhaustive=False, samples=samples, violations=violations[:20], seed=seed)
 
 
@@ -673,7 +697,7 @@ def replay_tnet(model, obligation):
     return dict(confirmed=False)
 
 
-def tnet_from_stream(chunks, gap=0.01):
+def tnet_from_stream(chunks, gap=0.01, timeout=1.0, drop_none=False):
     """the real tnet.tnet_from receive loop on a socket pair fed the given chunks; returns the yielded payloads"""
     import socket
     import threading
@@ -691,9 +715,11 @@ def tnet_from_stream(chunks, gap=0.01):
     t = threading.Thread(target=feed, daemon=True)
     t.start()
     try:
-        for v in tnet.tnet_from(b, ('pair', 1), timeout=1.0, latency=0.05, ignore=b'\n'):
+        for v in tnet.tnet_from(b, ('pair', 1), timeout=timeout, latency=0.02, ignore=b'\n'):
             if v is None and not out and not t.is_alive():
                 break
+            if v is None and drop_none:
+                continue              # the marker of a receive timeout (the caller sends no null messages in this mode)
             out.append(v)
             if len(out) > 50:
                 break
